@@ -83,6 +83,9 @@ def check_path(ck, E, p, frames, total, end, names):
         if not r.ok:
             wrote.append(None)
             continue
+        if any(q[0] == 'cut' for q in r.payload) or any(q[0] == 'cut' for q in HC.parts_of(d)):
+            wrote.append(None)      # a response of which only a prefix was written
+            continue
         wrote.append((mval(mdl, r.opcode), mval(mdl, r.opaque)))
     handled = []
     for ev in x.handled:
